@@ -1,4 +1,5 @@
 import Snel.Lemmas.Materialize
+import Snel.Lemmas.IdGen
 /-!
 # C14 — SHOW of a remembered query equals the live query, each event once
 
@@ -12,9 +13,10 @@ query engine are part of the history (`sched`): their order and split are schedu
 (fan-in of shards, memtable flow vs. segment flow) and `LegitRemember` / `LegitShow` only say
 that they are a split of what the query returns at that moment.
 
-The full statement (`ShowEqQueryAlways`) is **false** of the code as modelled; three
-independent witnesses are proved below and replayed on the real engine by the `witness`
-stream of the check. `C14_show_eq_query_partial` states exactly what is needed:
+The full statement (`ShowEqQueryAlways`) is **false** of the code as modelled; four
+independent witnesses are proved below (three against the mark logic, one for a REMEMBER that
+runs while a flush is in its window) and replayed on the real engine by the `witness` stream
+of the check. `C14_show_eq_query_partial` states exactly what is needed:
 
 * (`EvAbove`) every event applied after a mark was left has `(ts, id)` lexicographically
   above that mark, and
@@ -132,6 +134,91 @@ theorem C14_show_eq_query_monotone (ops : List Op) (h : MonoRun St.init ops) :
     ShowEqQuery (run St.init ops) :=
   C14_show_eq_query_partial ops (okRun_of_monoRun Reach.init h)
 
+/-! ### One shard, one id generator, a monotone wall clock -/
+
+/-- The events a history applies, in order. -/
+def stores : List Op → List Ev
+  | [] => []
+  | .store e :: ops => e :: stores ops
+  | _ :: ops => stores ops
+
+/-- Every REMEMBER / SHOW of the history keeps at most one non-empty batch. -/
+def StepSingle (s : St) : Op → Prop
+  | .remember _ _ _ sched => (nonEmpty sched).length ≤ 1
+  | .showM n sched => ∀ e, s.cat n = some e → (keptBatches (sinkMark e.frames) sched).length ≤ 1
+  | _ => True
+
+def SingleRun : St → List Op → Prop
+  | _, [] => True
+  | s, op :: ops => StepSingle s op ∧ SingleRun (step s op) ops
+
+theorem remember_store (s : St) (n : Nat) (q : Spec) (now : Nat) (sched : List (List Ev)) :
+    (remember s n q now sched).1.store = s.store := by
+  unfold remember; split <;> rfl
+
+theorem showM_store (s : St) (n : Nat) (sched : List (List Ev)) :
+    (showM s n sched).1.store = s.store := by
+  unfold showM; split <;> rfl
+
+/-- Arrival order relation: not earlier second, larger id. -/
+def Before (r e : Ev) : Prop := r.ts ≤ e.ts ∧ r.id < e.id
+
+theorem monoRun_of_pairwise : ∀ (ops : List Op) (s : St) (pre : List Ev),
+    s.store.vis.Perm pre → (pre ++ stores ops).Pairwise Before → (∀ e ∈ stores ops, 0 < e.id) →
+    LegitRun s ops → SingleRun s ops → MonoRun s ops
+  | [], _, _, _, _, _, _, _ => trivial
+  | op :: ops, s, pre, hp, hpw, hpos, hl, hs => by
+    cases op with
+    | store e =>
+      simp only [stores] at hpw hpos
+      have hpw' : ((pre ++ [e]) ++ stores ops).Pairwise Before := by
+        rw [append_assoc]; exact hpw
+      have hvis : (step s (.store e)).store.vis.Perm (pre ++ [e]) := by
+        have hp' := hp
+        simp only [Store.vis, append_assoc] at hp'
+        simp only [step, Store.vis, append_assoc, singleton_append]
+        refine perm_middle.trans ?_
+        exact (Perm.cons e hp').trans (perm_append_singleton e pre).symm
+      refine ⟨⟨hpos e mem_cons_self, ?_⟩,
+        monoRun_of_pairwise ops _ (pre ++ [e]) hvis hpw'
+          (fun x hx => hpos x (mem_cons_of_mem _ hx)) hl.2 hs.2⟩
+      intro r hr
+      have hr' : r ∈ pre := hp.mem_iff.mp hr
+      exact (pairwise_append.mp hpw).2.2 r hr' e mem_cons_self
+    | relayout st =>
+      simp only [stores] at hpw hpos
+      exact ⟨hl.1, monoRun_of_pairwise ops _ pre (hl.1.1.trans hp) hpw hpos hl.2 hs.2⟩
+    | remember n q now sched =>
+      simp only [stores] at hpw hpos
+      refine ⟨⟨hl.1, hs.1⟩, monoRun_of_pairwise ops _ pre ?_ hpw hpos hl.2 hs.2⟩
+      simp only [step, remember_store]; exact hp
+    | showM n sched =>
+      simp only [stores] at hpw hpos
+      refine ⟨⟨hl.1, hs.1⟩, monoRun_of_pairwise ops _ pre ?_ hpw hpos hl.2 hs.2⟩
+      simp only [step, showM_store]; exact hp
+
+/-- **One shard.** If the ids of the applied events are what ONE id generator lifetime produces
+(`Snel.IdGen.run`, the model tied to `event_id.rs` by C18) under any clock inside the id window,
+the handler seconds do not decrease in apply order, ids are non-zero, and every REMEMBER / SHOW
+keeps at most one batch, then SHOW equals QUERY after the history. No hypothesis about marks. -/
+theorem C14_show_eq_query_one_shard (ops : List Op) (clk : List Nat) (shard : Nat)
+    (hleg : LegitRun St.init ops) (hsingle : SingleRun St.init ops)
+    (hclk : ∀ r ∈ clk, Snel.IdGen.InRange r)
+    (hids : (stores ops).map (·.id)
+      = Snel.IdGen.run Snel.IdGen.Gen.init clk shard (stores ops).length)
+    (hpos : ∀ e ∈ stores ops, 0 < e.id)
+    (hts : ((stores ops).map (·.ts)).Pairwise (· ≤ ·)) :
+    ShowEqQuery (run St.init ops) := by
+  have hid : ((stores ops).map (·.id)).Pairwise (· < ·) := by
+    rw [hids]
+    exact (Snel.IdGen.run_sorted _ Snel.IdGen.Gen.init clk shard Snel.IdGen.init_ok hclk).1
+  have hpw : (stores ops).Pairwise Before := by
+    rw [pairwise_map] at hid hts
+    exact hts.and hid
+  apply C14_show_eq_query_monotone
+  exact monoRun_of_pairwise ops St.init [] (by simp [St.init, Store.vis]) (by simpa using hpw)
+    hpos hleg hsingle
+
 /-! ### Witnesses against the full statement -/
 
 def qAll : Spec := { pred := fun _ => true, since := none }
@@ -167,7 +254,7 @@ def histLastFrame : List Op :=
 /-- **Witness 2 (the mark is that of the last batch, not the maximum).** The mark left is
 `(5, 100)` although `(10, 300)` is stored; the next SHOW's delta returns P again: SHOW has
 three rows, QUERY two. One shard, monotone clocks. -/
-theorem C14_show_eq_query_fails_last_frame :
+theorem C14_show_eq_query_last_frame_fails :
     LegitRun St.init histLastFrame ∧
     ∃ rows, (showM (run St.init histLastFrame) 0 [[evQ, evP]]).2 = some rows ∧
       LegitShow (run St.init histLastFrame) 0 [[evQ, evP]] ∧
@@ -184,7 +271,7 @@ def histComponentwise : List Op :=
 /-- **Witness 3 (the two maxima of the mark are taken separately).** One batch holds
 `(9, 50)` and `(8, 70)`; the mark is `(9, 70)`, the position of no row. T = `(9, 60)` is
 above every stored row, yet not above the mark, and is never shown. -/
-theorem C14_show_eq_query_fails_componentwise :
+theorem C14_show_eq_query_componentwise_fails :
     LegitRun St.init histComponentwise ∧
     (∀ r ∈ [evR, evS], lexGt evT.pos r.pos = true) ∧
     ∃ rows, (showM (run St.init histComponentwise) 0 [[evR, evT]]).2 = some rows ∧
@@ -192,6 +279,70 @@ theorem C14_show_eq_query_fails_componentwise :
       rows = [evR, evS] ∧
       runQuery (run St.init histComponentwise).store qAll none = [evS, evR, evT] := by
   refine ⟨by decide, by decide, [evR, evS], rfl, by decide, rfl, rfl⟩
+
+/-! ### REMEMBER while a flush is in its window -/
+
+def evF1 : Ev := { ts := 3, id := 10, shard := 0, key := 1, ctx := 0, x := 1 }
+def evF2 : Ev := { ts := 3, id := 11, shard := 0, key := 2, ctx := 0, x := 1 }
+
+/-- Two STOREs fill the memtable; its flush has written the segment's files but not yet
+released the passive buffer (`Store.flushBegin`) when REMEMBER runs — REMEMBER sends no AwaitFlush
+barrier; then the flush finishes (`Store.flushEnd`). -/
+def histWindow : List Op :=
+  [.store evF1, .store evF2,
+   .relayout (Store.flushBegin { mem := [evF1, evF2], zones := [] } 0 9),
+   .remember 0 qAll 9 [[evF1, evF2], [evF1, evF2]],
+   .relayout (Store.flushBegin { mem := [evF1, evF2], zones := [] } 0 9).flushEnd]
+
+/-- **Witness 4 (REMEMBER in the flush window).** The initial run reads every row of the
+rotated memtable twice (buffer and segment) and REMEMBER stores both copies — it neither waits
+for in-flight flushes as SHOW does nor de-duplicates on the event id as QUERY's response writer
+does. Every later SHOW returns four rows; QUERY returns two. The two halves of the flush compose
+to the model's atomic `flush`, which is a legitimate re-layout; the half-way state is not
+(`RelayoutOk` fails: the scan sees more rows than were applied), so the partial theorem does not
+cover it. -/
+theorem C14_remember_in_flush_window_fails :
+    (Store.flushBegin { mem := [evF1, evF2], zones := [] } 0 9).flushEnd
+        = Store.flush { mem := [evF1, evF2], zones := [] } 0 9 ∧
+    ¬ RelayoutOk { mem := [evF1, evF2], zones := [] }
+        (Store.flushBegin { mem := [evF1, evF2], zones := [] } 0 9) ∧
+    LegitRemember (run St.init (histWindow.take 3)) qAll [[evF1, evF2], [evF1, evF2]] ∧
+    LegitShow (run St.init histWindow) 0 [[evF1, evF2]] ∧
+    ((showM (run St.init histWindow) 0 [[evF1, evF2]]).2.map (·.map (·.key))) = some [1, 2, 1, 2] ∧
+    (queryAnswer (run St.init histWindow).store qAll).map (·.key) = [1, 2] := by
+  refine ⟨rfl, by decide, by decide, by decide, by decide, by decide⟩
+
+/-- The two halves of a flush compose to the atomic flush of the model (nothing else in its
+window). -/
+theorem C14_flush_halves_compose (s : Store) (hp : s.passive = []) (shard now : Nat) :
+    (s.flushBegin shard now).flushEnd = s.flush shard now := by
+  unfold Store.flushBegin Store.flush Store.flushEnd
+  simp only
+  split
+  · cases s; simp_all
+  · cases s; simp_all
+
+/-- With pairwise distinct ids the response writer's de-duplication changes nothing: the
+`runQuery` of the theorems above is what the user sees. -/
+theorem C14_query_answer_eq (s : Store) (q : Spec)
+    (hn : (s.vis.map (·.id)).Nodup) : queryAnswer s q = runQuery s q none := by
+  unfold queryAnswer
+  rw [runQuery_none]
+  have : ∀ l : List Ev, (l.map (·.id)).Nodup → dedupById l = l := by
+    intro l
+    induction l with
+    | nil => intro _; rfl
+    | cons e l ih =>
+      intro h
+      simp only [map_cons, nodup_cons] at h
+      simp only [dedupById, ih h.2]
+      congr 1
+      apply filter_eq_self.mpr
+      intro r hr
+      have : r.id ≠ e.id := fun heq => h.1 (heq ▸ mem_map.mpr ⟨r, hr, rfl⟩)
+      simp [this]
+  apply this
+  exact (hn.sublist ((filter_sublist).map _))
 
 /-! ## Each event once -/
 
@@ -335,7 +486,7 @@ theorem C14_zone_drop_created_at_partial (s : Store) (q : Spec) (c : Nat) (store
   obtain ⟨hv, hq⟩ := mem_filter.mp hr
   simp only [Store.vis, mem_append, mem_flatMap] at hv
   rcases hv with hm | ⟨z, hz, hrz⟩
-  · exact Or.inl (mem_filter.mpr ⟨mem_append_left _ hm, hq⟩)
+  · exact Or.inl (mem_filter.mpr ⟨mem_append_left _ (mem_append.mpr hm), hq⟩)
   · cases hk : zoneKept (some (c, none)) z with
     | true =>
       refine Or.inl (mem_filter.mpr ⟨mem_append_right _ ?_, hq⟩)
@@ -353,6 +504,49 @@ theorem C14_zone_drop_created_at_fails :
     ∃ (s : Store) (c : Nat), evT ∈ runQuery s qAll none ∧ evT ∉ runQuery s qAll (some (c, none)) :=
   ⟨{ mem := [], zones := [{ rows := [evT], tsMax := 9, createdAt := 20, mtime := 20 }] }, 20,
     by decide, by decide⟩
+
+/-- The model's flush, compaction round and backdating are legitimate placement changes
+(hypotheses: the flush clock is not more than a second behind the stamps of the rows it writes;
+compaction's file clock is not behind the files it reads). -/
+theorem C14_flush_is_relayout (s : Store) (hs : s.Truthful) (shard now : Nat)
+    (hclock : ∀ r ∈ s.mem, r.ts ≤ now + 1) : RelayoutOk s (s.flush shard now) := flush_ok hs hclock
+
+theorem C14_compact_is_relayout (s : Store) (hs : s.Truthful) (shard now : Nat)
+    (hclock : ∀ z ∈ s.zones, z.mtime ≤ now) : RelayoutOk s (s.compact shard now) :=
+  compact_ok hs hclock
+
+theorem C14_backdate_is_relayout (s : Store) (hs : s.Truthful) : RelayoutOk s s.backdate :=
+  backdate_ok hs
+
+/-! ## The AwaitFlush barrier -/
+
+/-- Ticket histories of one shard: a ticket is handed out, or the flush worker completes the
+oldest pending ticket (it runs one job at a time, in queue order). -/
+inductive TicketReach : Progress → Prop
+  | init : TicketReach Progress.init
+  | next {p : Progress} : TicketReach p → TicketReach p.nextId.1
+  | done {p : Progress} {t : Nat} {rest : List Nat} :
+      TicketReach p → p.pending = t :: rest → TicketReach (p.markCompleted t)
+
+/-- When `on_wait_for_flush` returns for the target it snapshotted, every flush submitted
+before the barrier has completed — for every ticket history with in-order completion.
+PARTIAL: `mark_completed` itself is a plain maximum, see `C14_barrier_sound_fails`. -/
+theorem ticketReach_ordered {p : Progress} (h : TicketReach p) : p.Ordered := by
+  induction h with
+  | init => exact progress_init_ordered
+  | next _ ih => exact progress_next_ordered ih
+  | done _ hp ih => exact progress_complete_head_ordered ih hp
+
+theorem C14_barrier_sound_partial (p : Progress) (h : TicketReach p) (target : Nat)
+    (ho : p.barrierOpen target = true) : ∀ t ∈ p.pending, target < t :=
+  barrier_sound (ticketReach_ordered h) ho
+
+/-- Out-of-order completion opens the barrier early: tickets 1 and 2 handed out, 2 completed,
+the barrier for target 2 is open while ticket 1 is pending. (The flush worker never does this:
+it awaits each job before taking the next.) -/
+theorem C14_barrier_sound_fails :
+    let p := ((Progress.init.nextId.1).nextId.1).markCompleted 2
+    p.barrierOpen 2 = true ∧ 1 ∈ p.pending := by decide
 
 /-! ## Non-vacuity -/
 
